@@ -1,6 +1,6 @@
 (* C20 — proofs about the model Conc/Flush.v: invariants of the transition system over ALL label sequences
    (all schedules, any number of goroutines / entries / writers, any queue capacity). *)
-From Coq Require Import List NArith Bool Lia ZifyBool ZifyN.
+From Coq Require Import List NArith Bool Lia ZifyBool ZifyN ZifyNat.
 From TarsV Require Import Gen.Consts Conc.Flush.
 Import ListNotations.
 Open Scope N_scope.
@@ -980,3 +980,286 @@ Example flush_bounded_instance :
   exists s1 s2 s, run 4 init (firstn 12 sched_fixed) = Some s1 /\ step 4 s1 Request = Some s2 /\
     run 4 s2 (skipn 13 sched_fixed) = Some s /\ length (q s1) = 2%nat /\ flusher_steps (skipn 13 sched_fixed) = 4%nat.
 Proof. do 3 eexists. vm_compute. repeat split. Qed.
+
+(* ---------- what acceptance means: an accepted trace satisfies the property ---------- *)
+
+Lemma arun_app a t1 : forall a0 t2, a0 = a ->
+  arun a0 (t1 ++ t2) = match arun a0 t1 with Some a' => arun a' t2 | None => None end.
+Proof.
+  intros a0 t2 _. revert a0. induction t1 as [|ev t1 IH]; intros a0; cbn; [reflexivity|].
+  destruct (astep a0 ev); [apply IH | reflexivity].
+Qed.
+
+Lemma snoc_split_ne {A} (l : list A) y p1 x p2 :
+  l ++ [y] = p1 ++ x :: p2 -> x <> y -> exists p2', p2 = p2' ++ [y] /\ l = p1 ++ x :: p2'.
+Proof.
+  intros H Ne. apply snoc_decomp in H as H'. destruct H' as [-> | [p2' [-> E]]].
+  - apply app_inj_tail in H. destruct H as [_ E]. congruence.
+  - now exists p2'.
+Qed.
+
+Lemma unique_split {A} (X : A) a : forall b a' b', a ++ X :: b = a' ++ X :: b' -> ~ In X a' -> ~ In X b' -> a = a'.
+Proof.
+  induction a as [|y a IH]; intros b a' b' H N1 N2; destruct a' as [|y' a'']; cbn in *.
+  - reflexivity.
+  - inversion H; subst. exfalso. apply N1. now left.
+  - inversion H; subst. exfalso. apply N2. apply in_or_app. right. now left.
+  - inversion H; subst. f_equal. eapply IH; eauto.
+Qed.
+
+Record AInv (p : list event) (a : ast) : Prop := mkAInv {
+  v_t : a_t a = N.of_nat (length p);
+  v_ret : forall p1 e p2, p = p1 ++ ERet e :: p2 -> In (EWrite e) p \/ In (e, N.of_nat (length p1)) (a_ret a);
+  v_fly : forall e, In e (a_fly a) -> In (EWrite e) p \/ lookupE e (a_unw a) <> None;
+  v_fl : match a_fl a with
+         | ANone => ~ In EFlushCall p
+         | ACalled f => exists p1 p2, p = p1 ++ EFlushCall :: p2 /\ f = N.of_nat (length p1) /\ ~ In EFlushCall p1 /\ ~ In EFlushCall p2
+         | ARet => True
+         end;
+  v_unw_nw : forall e, lookupE e (a_unw a) <> None -> ~ In (EWrite e) p;
+  v_called : forall e, In (ECall e) p -> en e < lookupN (eg e) (a_next a);
+  v_written_called : forall e, In (EWrite e) p -> In (ECall e) p;
+  v_unw_stamp : forall e c, lookupE e (a_unw a) = Some c -> exists p1 p2, p = p1 ++ ECall e :: p2 /\ c = N.of_nat (length p1);
+  v_fly_called : forall e, In e (a_fly a) -> In (ECall e) p
+}.
+
+Lemma AInv_init : AInv [] ainit.
+Proof.
+  constructor; cbn; try (intros; contradiction); try reflexivity; try discriminate; auto.
+  all: try (intros p1 e p2 H; destruct p1; discriminate).
+  all: try (intros e H; now contradiction H).
+Qed.
+
+Lemma in_snoc {A} (x y : A) l : In x (l ++ [y]) <-> In x l \/ x = y.
+Proof. rewrite in_app_iff. cbn. intuition. Qed.
+
+Lemma stamp_ext (p : list event) ev (L : entry -> option N) :
+  (forall e c, L e = Some c -> exists p1 p2, p = p1 ++ ECall e :: p2 /\ c = N.of_nat (length p1)) ->
+  forall e c, L e = Some c -> exists p1 p2, p ++ [ev] = p1 ++ ECall e :: p2 /\ c = N.of_nat (length p1).
+Proof.
+  intros H e c Le. destruct (H e c Le) as (p1 & p2 & -> & ->). exists p1, (p2 ++ [ev]). split; [|reflexivity].
+  rewrite <- app_assoc. reflexivity.
+Qed.
+
+Lemma ret_ext (p : list event) ev (R R' : list (entry * N)) :
+  (forall x, ev <> ERet x) ->
+  (forall p1 e p2, p = p1 ++ ERet e :: p2 -> In (EWrite e) p \/ In (e, N.of_nat (length p1)) R) ->
+  (forall x r, In (x, r) R -> In (x, r) R' \/ ev = EWrite x) ->
+  forall p1 e p2, p ++ [ev] = p1 ++ ERet e :: p2 -> In (EWrite e) (p ++ [ev]) \/ In (e, N.of_nat (length p1)) R'.
+Proof.
+  intros Ne Old Sub p1 e p2 H. destruct (snoc_split_ne _ _ _ _ _ H) as (p2' & -> & E); [intros X; apply (Ne e); now rewrite X|].
+  destruct (Old _ _ _ E) as [W | W]; [left; apply in_snoc; now left|].
+  destruct (Sub _ _ W) as [S | S]; [now right | left; apply in_snoc; now right].
+Qed.
+
+Lemma fl_ext (p : list event) ev (f : afl) :
+  ev <> EFlushCall ->
+  match f with
+  | ANone => ~ In EFlushCall p
+  | ACalled f => exists p1 p2, p = p1 ++ EFlushCall :: p2 /\ f = N.of_nat (length p1) /\ ~ In EFlushCall p1 /\ ~ In EFlushCall p2
+  | ARet => True
+  end ->
+  match f with
+  | ANone => ~ In EFlushCall (p ++ [ev])
+  | ACalled f => exists p1 p2, p ++ [ev] = p1 ++ EFlushCall :: p2 /\ f = N.of_nat (length p1) /\ ~ In EFlushCall p1 /\ ~ In EFlushCall p2
+  | ARet => True
+  end.
+Proof.
+  intros Ne. destruct f; auto.
+  - intros H X. apply in_snoc in X. destruct X as [X | X]; [auto | congruence].
+  - intros (p1 & p2 & -> & -> & N1 & N2). exists p1, (p2 ++ [ev]). repeat split; auto.
+    + rewrite <- app_assoc. reflexivity.
+    + intros X. apply in_snoc in X. destruct X as [X | X]; [auto | congruence].
+Qed.
+
+Lemma AInv_step p a ev a' : AInv p a -> astep a ev = Some a' -> AInv (p ++ [ev]) a'.
+Proof.
+  intros [V1 V2 V3 V4 V5 V6 V7 V8 V9] Hs.
+  assert (LEN : N.of_nat (length (p ++ [ev])) = a_t a + 1) by (rewrite app_length; cbn; lia).
+  destruct ev as [e | e | e | | b]; unfold astep in Hs.
+  - (* ECall *)
+    destruct (negb _ && _) eqn:C in Hs; [|discriminate]. inversion Hs; subst a'; clear Hs.
+    apply andb_true_iff in C. destruct C as [_ C]. apply N.eqb_eq in C.
+    assert (NW : ~ In (EWrite e) p). { intros X. apply V7 in X. apply V6 in X. lia. }
+    constructor; cbn; auto.
+    + eapply ret_ext; eauto; discriminate.
+    + intros x [<- | Hin].
+      * right. rewrite lookupE_app. destruct (lookupE e (a_unw a)); [discriminate | rewrite entry_eqb_refl; discriminate].
+      * destruct (V3 _ Hin) as [W | W]; [left; apply in_snoc; now left | right].
+        rewrite lookupE_app. destruct (lookupE x (a_unw a)); [discriminate | contradiction].
+    + apply fl_ext; [discriminate | exact V4].
+    + intros x L X. apply in_snoc in X. destruct X as [X | X]; [|discriminate]. rewrite lookupE_app in L.
+      destruct (lookupE x (a_unw a)) eqn:LX.
+      * apply (V5 x); [rewrite LX; discriminate | exact X].
+      * destruct (entry_eqb x e) eqn:E; [|contradiction]. apply entry_eqb_eq in E. subst x. contradiction.
+    + intros x X. rewrite lookupN_setN. apply in_snoc in X. destruct X as [X | X].
+      * apply V6 in X. destruct (eg x =? eg e) eqn:E; [|exact X]. apply N.eqb_eq in E. rewrite E in X. lia.
+      * inversion X; subst. rewrite N.eqb_refl. lia.
+    + intros x X. apply in_snoc in X. destruct X as [X | X]; [|discriminate]. apply in_snoc. left. auto.
+    + intros x c L. rewrite lookupE_app in L. destruct (lookupE x (a_unw a)) eqn:LX.
+      * inversion L; subst. apply (stamp_ext p (ECall e) (fun y => lookupE y (a_unw a))); auto.
+      * destruct (entry_eqb x e) eqn:E; [|discriminate]. apply entry_eqb_eq in E. subst x. inversion L; subst.
+        exists p, []. split; [reflexivity | exact V1].
+    + intros x [<- | Hin]; apply in_snoc; [now right | left; auto].
+  - (* ERet *)
+    destruct (mem_entry e (a_fly a)) eqn:M; [|discriminate]. inversion Hs; subst a'; clear Hs.
+    apply mem_entry_true in M.
+    constructor; cbn; auto.
+    + intros p1 x p2 H. apply snoc_decomp in H as H'. destruct H' as [-> | [p2' [-> E]]].
+      * apply app_inj_tail in H. destruct H as [-> X]. inversion X; subst x.
+        destruct (V3 _ M) as [W | W]; [left; apply in_snoc; now left | right].
+        destruct (lookupE e (a_unw a)); [|contradiction]. apply in_snoc. right. now rewrite V1.
+      * destruct (V2 _ _ _ E) as [W | W]; [left; apply in_snoc; now left | right].
+        destruct (lookupE e (a_unw a)); [apply in_snoc; now left | exact W].
+    + intros x Hin. apply filter_In in Hin. destruct Hin as [Hin _]. destruct (V3 _ Hin) as [W | W]; [left; apply in_snoc; now left | now right].
+    + apply fl_ext; [discriminate | exact V4].
+    + intros x L X. apply in_snoc in X. destruct X as [X | X]; [|discriminate]. eapply V5; eauto.
+    + intros x X. apply in_snoc in X. destruct X as [X | X]; [auto | discriminate].
+    + intros x X. apply in_snoc in X. destruct X as [X | X]; [|discriminate]. apply in_snoc. left. auto.
+    + apply (stamp_ext p (ERet e) (fun y => lookupE y (a_unw a))); auto.
+    + intros x Hin. apply filter_In in Hin. destruct Hin as [Hin _]. apply in_snoc. left. auto.
+  - (* EWrite *)
+    destruct (lookupE e (a_unw a)) as [c|] eqn:LE; [|discriminate]. destruct (negb _ && _) eqn:C in Hs; [|discriminate].
+    inversion Hs; subst a'; clear Hs.
+    constructor; cbn; auto.
+    + eapply ret_ext; eauto; [discriminate|]. intros x r Hin. destruct (entry_eqb e x) eqn:E.
+      * apply entry_eqb_eq in E. subst. now right.
+      * left. apply In_removeE. split; [exact Hin|]. intros ->. rewrite entry_eqb_refl in E. discriminate.
+    + intros x Hin. destruct (entry_eqb e x) eqn:E.
+      * apply entry_eqb_eq in E. subst. left. apply in_snoc. now right.
+      * destruct (V3 _ Hin) as [W | W]; [left; apply in_snoc; now left | right]. rewrite lookupE_removeE, E. exact W.
+    + apply fl_ext; [discriminate | exact V4].
+    + intros x L X. rewrite lookupE_removeE in L. destruct (entry_eqb e x) eqn:E; [contradiction|].
+      apply in_snoc in X. destruct X as [X | X]; [eapply V5; eauto|]. inversion X; subst. rewrite entry_eqb_refl in E. discriminate.
+    + intros x X. apply in_snoc in X. destruct X as [X | X]; [auto | discriminate].
+    + intros x X. apply in_snoc. left. apply in_snoc in X. destruct X as [X | X]; [auto|]. inversion X; subst.
+      destruct (V8 _ _ LE) as (p1 & p2 & -> & _). apply in_or_app. right. now left.
+    + intros x c0 L. rewrite lookupE_removeE in L. destruct (entry_eqb e x); [discriminate|].
+      apply (stamp_ext p (EWrite e) (fun y => lookupE y (a_unw a))); auto.
+    + intros x Hin. apply in_snoc. left. auto.
+  - (* EFlushCall *)
+    destruct (a_fl a) eqn:F; try discriminate. inversion Hs; subst a'; clear Hs.
+    constructor; cbn; auto.
+    + eapply ret_ext; eauto; discriminate.
+    + intros x Hin. destruct (V3 _ Hin) as [W | W]; [left; apply in_snoc; now left | now right].
+    + exists p, []. repeat split; auto.
+    + intros x L X. apply in_snoc in X. destruct X as [X | X]; [eapply V5; eauto | discriminate].
+    + intros x X. apply in_snoc in X. destruct X as [X | X]; [auto | discriminate].
+    + intros x X. apply in_snoc in X. destruct X as [X | X]; [|discriminate]. apply in_snoc. left. auto.
+    + apply (stamp_ext p EFlushCall (fun y => lookupE y (a_unw a))); auto.
+    + intros x Hin. apply in_snoc. left. auto.
+  - (* EFlushRet *)
+    destruct (a_fl a) eqn:F; try discriminate.
+    assert (X : a_t a' = a_t a + 1 /\ a_fly a' = a_fly a /\ a_next a' = a_next a /\ a_unw a' = a_unw a /\ a_ret a' = a_ret a /\ a_fl a' = ARet).
+    { destruct b; [destruct (forallb _ _); [|discriminate]|]; inversion Hs; subst; cbn; repeat split. }
+    destruct X as (X1 & X2 & X3 & X4 & X5 & X6). clear Hs.
+    constructor; rewrite ?X1, ?X2, ?X3, ?X4, ?X5, ?X6; auto.
+    + eapply ret_ext; eauto; discriminate.
+    + intros x Hin. destruct (V3 _ Hin) as [W | W]; [left; apply in_snoc; now left | now right].
+    + intros x L X. apply in_snoc in X. destruct X as [X | X]; [eapply V5; eauto | discriminate].
+    + intros x X. apply in_snoc in X. destruct X as [X | X]; [auto | discriminate].
+    + intros x X. apply in_snoc in X. destruct X as [X | X]; [|discriminate]. apply in_snoc. left. auto.
+    + apply (stamp_ext p (EFlushRet b) (fun y => lookupE y (a_unw a))); auto.
+    + intros x Hin. apply in_snoc. left. auto.
+Qed.
+
+Record AInv2 (p : list event) : Prop := mkAInv2 {
+  w_nodup : forall p1 e p2, p = p1 ++ ECall e :: p2 -> ~ In (ECall e) p1;
+  w_ret_called : forall p1 e p2, p = p1 ++ ERet e :: p2 -> In (ECall e) p1
+}.
+Lemma AInv2_init : AInv2 [].
+Proof. constructor; intros p1 e p2 H; destruct p1; discriminate. Qed.
+
+Lemma AInv2_step p a ev a' : AInv p a -> AInv2 p -> astep a ev = Some a' -> AInv2 (p ++ [ev]).
+Proof.
+  intros V [W1 W2] Hs. constructor; intros p1 x p2 H; apply snoc_decomp in H as H'; destruct H' as [-> | [p2' [-> E]]]; eauto.
+  - apply app_inj_tail in H. destruct H as [-> ->]. unfold astep in Hs.
+    destruct (negb _ && _) eqn:C in Hs; [|discriminate]. apply andb_true_iff in C. destruct C as [_ C]. apply N.eqb_eq in C.
+    intros X. apply (v_called _ _ V) in X. lia.
+  - apply app_inj_tail in H. destruct H as [-> ->]. unfold astep in Hs.
+    destruct (mem_entry x (a_fly a)) eqn:M; [|discriminate]. apply mem_entry_true in M. apply (v_fly_called _ _ V _ M).
+Qed.
+
+Lemma arun_AInv tr : forall p a a', AInv p a -> AInv2 p -> arun a tr = Some a' -> AInv (p ++ tr) a' /\ AInv2 (p ++ tr).
+Proof.
+  induction tr as [|ev tr IH]; intros p a a' V W H; cbn in H.
+  - inversion H; subst. rewrite app_nil_r. auto.
+  - destruct (astep a ev) as [a1|] eqn:E; [|discriminate].
+    replace (p ++ ev :: tr) with ((p ++ [ev]) ++ tr) by (rewrite <- app_assoc; reflexivity).
+    eapply IH; eauto; [eapply AInv_step; eauto | eapply AInv2_step; eauto].
+Qed.
+
+(* the state of the machine in front of an accepted event *)
+Lemma accepts_at p ev rest : accepts (p ++ ev :: rest) = true ->
+  exists a a', AInv p a /\ AInv2 p /\ astep a ev = Some a'.
+Proof.
+  unfold accepts. rewrite (arun_app ainit p ainit) by reflexivity.
+  destruct (arun ainit p) as [a|] eqn:A; [|discriminate]. cbn [arun]. destruct (astep a ev) as [a'|] eqn:S; [|discriminate].
+  intros _. destruct (arun_AInv _ _ _ _ AInv_init AInv2_init A) as [V W]. exists a, a'. auto.
+Qed.
+
+Lemma unique_split2 {A} (X : A) a : forall b a' b', a ++ X :: b = a' ++ X :: b' -> ~ In X a -> ~ In X a' -> a = a'.
+Proof.
+  induction a as [|y a IH]; intros b a' b' H N1 N2; destruct a' as [|y' a'']; cbn in *.
+  - reflexivity.
+  - inversion H; subst. exfalso. apply N2. now left.
+  - inversion H; subst. exfalso. apply N1. now left.
+  - inversion H; subst. f_equal. eapply IH; eauto.
+Qed.
+
+(* an accepted trace satisfies the property: completeness at the acknowledged return ... *)
+Theorem accepts_complete t1 t2 t3 :
+  accepts (t1 ++ EFlushCall :: t2 ++ EFlushRet true :: t3) = true ->
+  forall e, In (ERet e) t1 -> In (EWrite e) (t1 ++ EFlushCall :: t2).
+Proof.
+  intros H e He.
+  replace (t1 ++ EFlushCall :: t2 ++ EFlushRet true :: t3) with ((t1 ++ EFlushCall :: t2) ++ EFlushRet true :: t3) in H
+    by (rewrite <- app_assoc; reflexivity).
+  destruct (accepts_at _ _ _ H) as (a & a' & V & _ & S).
+  apply in_split in He. destruct He as (u & v & ->).
+  destruct (v_ret _ _ V u e (v ++ EFlushCall :: t2)) as [W | W]; [rewrite <- app_assoc; reflexivity | exact W |].
+  exfalso. unfold astep in S. pose proof (v_fl _ _ V) as F. destruct (a_fl a) as [|f|]; try discriminate.
+  destruct (forallb _ _) eqn:FB in S; [|discriminate]. rewrite forallb_forall in FB. specialize (FB _ W). cbn in FB.
+  apply N.ltb_lt in FB. destruct F as (p1 & p2 & E & -> & N1 & N2).
+  apply unique_split in E; auto. subst p1. rewrite app_length in FB. cbn in FB. lia.
+Qed.
+
+(* ... exactly once, and only what was submitted ... *)
+Theorem accepts_once a e b : accepts (a ++ EWrite e :: b) = true -> ~ In (EWrite e) a /\ In (ECall e) a.
+Proof.
+  intros H. destruct (accepts_at _ _ _ H) as (s & s' & V & _ & S). unfold astep in S.
+  destruct (lookupE e (a_unw s)) as [c|] eqn:L; [|discriminate]. split.
+  - apply (v_unw_nw _ _ V). rewrite L. discriminate.
+  - destruct (v_unw_stamp _ _ V _ _ L) as (p1 & p2 & -> & _). apply in_or_app. right. now left.
+Qed.
+
+(* ... in FIFO order with respect to real time (hence in per-goroutine order) *)
+Theorem accepts_fifo a1 e1 a2 e2 a3 b :
+  accepts (a1 ++ ERet e1 :: a2 ++ ECall e2 :: a3 ++ EWrite e2 :: b) = true ->
+  In (EWrite e1) (a1 ++ ERet e1 :: a2 ++ ECall e2 :: a3).
+Proof.
+  intros H.
+  replace (a1 ++ ERet e1 :: a2 ++ ECall e2 :: a3 ++ EWrite e2 :: b)
+    with ((a1 ++ ERet e1 :: a2 ++ ECall e2 :: a3) ++ EWrite e2 :: b) in H
+    by (rewrite <- !app_assoc; cbn; rewrite <- !app_assoc; reflexivity).
+  destruct (accepts_at _ _ _ H) as (s & s' & V & W & S).
+  set (p := a1 ++ ERet e1 :: a2 ++ ECall e2 :: a3) in *.
+  assert (Ep : p = (a1 ++ ERet e1 :: a2) ++ ECall e2 :: a3) by (unfold p; rewrite <- app_assoc; reflexivity).
+  destruct (v_ret _ _ V a1 e1 (a2 ++ ECall e2 :: a3) eq_refl) as [X | X]; [exact X | exfalso].
+  unfold astep in S. destruct (lookupE e2 (a_unw s)) as [c|] eqn:L; [|discriminate].
+  destruct (negb _ && _) eqn:C in S; [|discriminate]. apply andb_true_iff in C. destruct C as [_ FB].
+  rewrite forallb_forall in FB. specialize (FB _ X). cbn in FB.
+  destruct (v_unw_stamp _ _ V _ _ L) as (p1 & p2 & E & ->).
+  assert (P1 : p1 = a1 ++ ERet e1 :: a2).
+  { pose proof (w_nodup _ W _ _ _ E) as N1. pose proof (w_nodup _ W _ _ _ Ep) as N2.
+    assert (E2 : p1 ++ ECall e2 :: p2 = (a1 ++ ERet e1 :: a2) ++ ECall e2 :: a3) by (rewrite <- E, <- Ep; reflexivity).
+    eapply unique_split2; eauto. }
+  apply orb_true_iff in FB. destruct FB as [FB | FB].
+  - apply entry_eqb_eq in FB. subst e2. pose proof (w_ret_called _ W a1 e1 _ eq_refl) as Hc.
+    apply (w_nodup _ W _ _ _ Ep). apply in_or_app. now left.
+  - apply N.ltb_lt in FB. subst p1. rewrite app_length in FB. cbn in FB. lia.
+Qed.
+
+Example accepts_complete_instance :
+  accepts ([ECall e00; ERet e00] ++ EFlushCall :: [EWrite e00] ++ EFlushRet true :: []) = true.
+Proof. vm_compute. reflexivity. Qed.
